@@ -71,6 +71,8 @@ type vfWorld struct {
 	inboxIRI    *url.URL
 	outboxIRI   *url.URL
 	newIDs      []*url.URL
+	idKind      int
+	missingReq  bool
 	getNilOK    bool // C20 only: Get may return (nil, nil)
 	defaultStore bool // Get falls back to vfGetDefault
 	inboxSeen   func(id string) bool
@@ -156,7 +158,7 @@ var _ Database = (*vfDB)(nil)
 
 func (d *vfDB) Lock(c context.Context, id *url.URL) error {
 	w := d.w
-	s := id.String()
+	s := vfS(id)
 	w.ev(vfEvent{kind: "db.Lock", id: s})
 	if w.fault("db.Lock") {
 		w.log[len(w.log)-1].failed = true
@@ -171,7 +173,7 @@ func (d *vfDB) Lock(c context.Context, id *url.URL) error {
 
 func (d *vfDB) Unlock(c context.Context, id *url.URL) error {
 	w := d.w
-	s := id.String()
+	s := vfS(id)
 	w.ev(vfEvent{kind: "db.Unlock", id: s})
 	if w.checkLocks {
 		vfAssert(w.isHeld(s), "unlock-of-lock-not-held")
@@ -493,11 +495,13 @@ type vfApp struct{ w *vfWorld }
 var _ CommonBehavior = (*vfApp)(nil)
 var _ FederatingProtocol = (*vfApp)(nil)
 
-func (a *vfApp) auth(kind string, c context.Context) (context.Context, bool, error) {
+func (a *vfApp) auth(kind string, c context.Context, rw http.ResponseWriter) (context.Context, bool, error) {
 	w := a.w
 	w.ev(vfEvent{kind: kind})
 	switch w.authMode {
 	case 1:
+		// the application answers a denied request itself
+		rw.WriteHeader(http.StatusUnauthorized)
 		return c, false, nil
 	case 2:
 		return c, false, vfErrFault
@@ -507,13 +511,13 @@ func (a *vfApp) auth(kind string, c context.Context) (context.Context, bool, err
 }
 
 func (a *vfApp) AuthenticateGetInbox(c context.Context, rw http.ResponseWriter, r *http.Request) (context.Context, bool, error) {
-	return a.auth("app.AuthenticateGetInbox", c)
+	return a.auth("app.AuthenticateGetInbox", c, rw)
 }
 func (a *vfApp) AuthenticateGetOutbox(c context.Context, rw http.ResponseWriter, r *http.Request) (context.Context, bool, error) {
-	return a.auth("app.AuthenticateGetOutbox", c)
+	return a.auth("app.AuthenticateGetOutbox", c, rw)
 }
 func (a *vfApp) AuthenticatePostInbox(c context.Context, rw http.ResponseWriter, r *http.Request) (context.Context, bool, error) {
-	return a.auth("app.AuthenticatePostInbox", c)
+	return a.auth("app.AuthenticatePostInbox", c, rw)
 }
 func (a *vfApp) GetOutbox(c context.Context, r *http.Request) (vocab.ActivityStreamsOrderedCollectionPage, error) {
 	w := a.w
@@ -657,7 +661,7 @@ func (a *vfSocial) PostOutboxRequestBodyHook(c context.Context, r *http.Request,
 	return c, nil
 }
 func (a *vfSocial) AuthenticatePostOutbox(c context.Context, rw http.ResponseWriter, r *http.Request) (context.Context, bool, error) {
-	return (&vfApp{w: a.w}).auth("app.AuthenticatePostOutbox", c)
+	return (&vfApp{w: a.w}).auth("app.AuthenticatePostOutbox", c, rw)
 }
 func (a *vfSocial) cb(name string) error { return (&vfApp{w: a.w}).appCb(name) }
 func (a *vfSocial) SocialCallbacks(c context.Context) (SocialWrappedCallbacks, []interface{}, error) {
